@@ -91,12 +91,51 @@ struct ProgressProducer<T> {
     progress: ProgressBar,
 }
 
+/// Iterator over one piece of a split producer. Unlike [`ProgressBarIter`] it only counts: the
+/// end of one piece is not the end of the whole parallel iterator, so it must not finish the bar.
+struct ProgressProducerIter<I> {
+    it: I,
+    progress: ProgressBar,
+}
+
+impl<I: Iterator> Iterator for ProgressProducerIter<I> {
+    type Item = I::Item;
+
+    fn next(&mut self) -> Option<Self::Item> {
+        let item = self.it.next();
+        if item.is_some() {
+            self.progress.inc(1);
+        }
+        item
+    }
+
+    fn size_hint(&self) -> (usize, Option<usize>) {
+        self.it.size_hint()
+    }
+}
+
+impl<I: ExactSizeIterator> ExactSizeIterator for ProgressProducerIter<I> {
+    fn len(&self) -> usize {
+        self.it.len()
+    }
+}
+
+impl<I: DoubleEndedIterator> DoubleEndedIterator for ProgressProducerIter<I> {
+    fn next_back(&mut self) -> Option<Self::Item> {
+        let item = self.it.next_back();
+        if item.is_some() {
+            self.progress.inc(1);
+        }
+        item
+    }
+}
+
 impl<T, P: Producer<Item = T>> Producer for ProgressProducer<P> {
     type Item = T;
-    type IntoIter = ProgressBarIter<P::IntoIter>;
+    type IntoIter = ProgressProducerIter<P::IntoIter>;
 
     fn into_iter(self) -> Self::IntoIter {
-        ProgressBarIter {
+        ProgressProducerIter {
             it: self.base.into_iter(),
             progress: self.progress,
         }
